@@ -124,6 +124,15 @@ void run_case(ByteSource& s, CaseInfo& ci) {
       ci.label("alias-target");
     }
   }
+  {  // assignment into an existing vector with stale content (every component, including the identity one, must be overwritten)
+    SU_vector X(d), Y(d);
+    for (int i = 0; i < d * d; i++) { X[i] = 7.0 + i; Y[i] = -3.0 - i; }
+    X = squids::iCommutator(A, B); Y = squids::ACommutator(A, B);
+    for (int i = 0; i < d * d; i++) {
+      CHECK(bit_equal(X[i], C1[i]) || X[i] == C1[i], fmt("C02|iCommutator|stale-target-content-survives|d=%d", d), "slot %d %.17g vs %.17g", i, X[i], C1[i]);
+      CHECK(bit_equal(Y[i], A1[i]) || Y[i] == A1[i], fmt("C02|ACommutator|stale-target-content-survives|d=%d", d), "slot %d %.17g vs %.17g", i, Y[i], A1[i]);
+    }
+  }
   // bilinearity: iC(x A + y A', B) = x iC(A,B) + y iC(A',B)
   if (s.flag()) {
     std::vector<double> a2 = gen_dense(s, d);
